@@ -917,8 +917,8 @@ def _advance_head_front(state: State, heads: List[FlowHead]) -> List[FlowHead]:
             # We only advance merging heads if all internal events were processed
             actionable_heads.append(head)
             continue
-        elif head.status == FlowHeadStatus.ACTIVE:
-            head.position += 1
+
+        advance_head = head.status == FlowHeadStatus.ACTIVE
 
         if flow_state.status == FlowStatus.WAITING:
             flow_state.status = FlowStatus.STARTING
@@ -929,6 +929,10 @@ def _advance_head_front(state: State, heads: List[FlowHead]) -> List[FlowHead]:
         flow_finished = False
         flow_aborted = False
         try:
+            if advance_head:
+                # Changing the head position can already fail for an invalid match statement
+                head.position += 1
+
             new_heads = slide(state, flow_state, flow_config, head)
 
             # Advance all new heads created by a head fork
